@@ -108,7 +108,7 @@ def run(ctx):
     if ok_model:
         if cfg["proj"]:
             cdir = os.path.join(ctx.work, "corr")
-            ctx.sh([os.path.join(BIN, "diffcheck"), "corr", "-seed", str(ctx.seed + 1000), "-n", str(n_corr), "-shards", "16",
+            ctx.sh([os.path.join(BIN, "diffcheck"), "corr", "-seed", str(ctx.seed + 1000), "-n", str(n_corr), "-shards", str(16 if n_corr <= 2000 else 64),
                     "-out", cdir, "-proj", cfg["proj"]], timeout=3000)
             res = ctx.run_case_shards(cdir)
             meta = json.load(open(os.path.join(cdir, "cases.json")))
